@@ -1253,6 +1253,10 @@ func (mgr *Manager) UpdateTag(name string, operation UpdateTagOperation) error {
 				if mgr.referencesTag(newTag.referencedTags(), name) {
 					return errors.New("reference cycles not allowed in tags")
 				}
+				// the attached converters are kept, the new query has to allow that like it has to when attaching
+				if len(tag.converters) != 0 && !newTag.canAttachConverter() {
+					return errTagQueryTooComplex(name)
+				}
 				newTag.color = tag.color
 				newTag.converters = tag.converters
 				newTag.referencedBy = tag.referencedBy
